@@ -68,9 +68,14 @@ def _endings():
     # the instructions that are no assertions (cd, dir, file, copy) but may be written in [assert]: one that cannot do its
     # job is an error there as everywhere else - "reported as an error, and not as a failed test"
     add('helper_instruction_fails', 'exec', 'HARD_ERROR', ['setup', 'before-assert', 'assert', 'cleanup'])
+    # an assertion on file contents / output that cannot be evaluated (the file is not there, the program of `-from` or of a
+    # `run` transformer cannot be started or fails): an error, not a failed test
+    add('assertion_cannot_be_evaluated', 'exec', 'HARD_ERROR', ['assert'])
     add('stub_hard_returned', 'exec', 'HARD_ERROR', INSTR_PHASES)
     add('stub_hard_raised', 'exec', 'HARD_ERROR', INSTR_PHASES)
     add('atc_cannot_start', 'exec', 'HARD_ERROR', ['act'])
+    # [act] names a file in the sandbox that is not there after [setup]: found by the actor's validation after setup
+    add('act_references_missing_sandbox_file', 'exec', 'HARD_ERROR', ['act'])
     add('act_stub_hard', 'exec', 'HARD_ERROR', ['act'], step='execute')
     add('act_stub_hard', 'exec', 'HARD_ERROR', ['act'], step='prepare')
     add('stub_exception', 'exec', 'INTERNAL_ERROR', INSTR_PHASES)
@@ -221,6 +226,13 @@ def build(seed, tier, ending, status, mode, g, atc_exit=None, sweep=False):
         insert('assert', {'k': 'probe', 'id': 'ax', 'form': g.choice(['%', 'run', '$'])})
     elif eid == 'assert_stub_fail':
         stub('assert', 'main', 'pfh_fail')
+    elif eid == 'assertion_cannot_be_evaluated':
+        v = g.choice(['contents no-such-file.txt : is-empty', 'stdout -from % nostart\n  is-empty',
+                      'stdout -transformed-by run % failing-tr\n  is-empty', 'stderr -from % failing-tr\n  is-empty',
+                      'dir-contents no-such-dir : is-empty'])
+        procs['nostart'] = {'spawn_error': 'ENOENT'}
+        procs['failing-tr'] = {'exit': 2, 'stderr': 'tr failed\n'}
+        insert('assert', {'k': 'real', 'e': 1, 'text': v})
     elif eid == 'helper_instruction_fails':
         v = g.choice(['cd no-such-dir', 'file dup.txt = "b"', 'dir dup.txt', 'dir dup.txt/sub'])
         if 'dup.txt' in v:
@@ -256,6 +268,9 @@ def build(seed, tier, ending, status, mode, g, atc_exit=None, sweep=False):
         stub(ph, 'main', 'raise_hard')
     elif eid == 'atc_cannot_start':
         atc['spawn_error'] = g.choice(['ENOENT', 'EACCES'])
+    elif eid == 'act_references_missing_sandbox_file':
+        case['act'] = {'lines': [g.choice(['-rel-act no-such-program-in-the-sandbox', '% atc -existing-file -rel-act no-such-file',
+                                           '-rel-tmp no-such-program arg'])]}
     elif eid == 'act_stub_hard':
         stub('act', ending['step'], {'execute': 'eh_hard', 'prepare': 'sh_hard'}[ending['step']])
     elif eid == 'stub_exception':
